@@ -1,5 +1,6 @@
 import LyModel.Yin.Ok
 import LyModel.Yin.Strict
+import LyModel.Yin.Card
 /-! driver ops of component `yin` (same ops as `harness/wb_yin.c`)
 
 Tree syntax (no blanks): statement `S<name>:<N|E|K<keyword>>:<arg|N>:<flags>{<statements>}`, extension instance
@@ -167,6 +168,19 @@ def handle (op : String) (args : List String) : String :=
       | some none => "ok in"
       | some (some w) => "ok out " ++ w
     | none => "err BadHex"
+  | "card", [kind, seq] =>
+    -- model only: is the child-keyword sequence (hex keywords separated by commas, `-` = extension instance, `.` = no child) an emission
+    -- of the generated printer pattern of the statement kind, and does it pass the parser's cardinality rules?
+    let pt : Option (List (Bytes × Nat) × List (Bytes × Bool × Bool)) :=
+      if kind == "leaf" then some (Generated.yinEmit_leaf, Generated.yinSubelems_leaf)
+      else if kind == "typedef" then some (Generated.yinEmit_typedef, Generated.yinSubelems_typedef)
+      else if kind == "container" then some (Generated.yinEmit_container, Generated.yinSubelems_container)
+      else none
+    let ks : Option (List Bytes) := if seq == "." then some [] else (seq.splitOn ",").mapM Hex.dec
+    match pt, ks with
+    | some (pat, table), some ks =>
+      "ok " ++ (if Card.isEmission pat ks then "1" else "0") ++ " " ++ (if Card.cardOk table ks then "1" else "0")
+    | _, _ => "err BadArg"
   | "yinok", [t] =>
     -- model only: `yinOkList` / `extOk` under the namespaces the check declares on the start tag
     match stmtsOf t with
